@@ -258,7 +258,7 @@ def main(tier):
             witnesses.append((r, r["witness"]))
     from vf.props import glue
     try:
-        gfind, gok, grun = glue.analyse()
+        gfind, gok, genc, gnotes = glue.analyse_all()
         witnesses += [(None, w) for w in glue.witnesses_for(PROP, gfind)]
     except common.Inconclusive as e:
         rep.inconc(str(e))
